@@ -130,6 +130,42 @@ def run(ck, F):
             ck.check(R2, inst, not badr, f'{fid} iterates over {rng_t}: the order of the elements depends on addresses / hash values', loc=f['loc'], fn=fid)
     ck.extra['iterations'] = nloops
 
+    # ---------------------------------------------------------------- what is printed does not depend on earlier prints
+    R2b = ck.rule('C17.stream-state-untouched', 'no function of the printer inserts a sticky manipulator or alters the formatting state of the '
+                  'caller\'s stream: the text of a print does not depend on what was printed through the same stream before (a unit printed '
+                  'again, or a twin graph printed next, gives the same bytes)', floor=150)
+    import c18
+    for f in sorted(pf.values(), key=lambda f: f['id']):
+        sticky = c18.sticky_in(f)
+        ck.check(R2b, f['id'], not sticky, f'{f["id"]} alters the stream state with {sorted(set(sticky))} and never restores it: numbers printed '
+                 'later through the same stream (positions, file / line / column of locations) come out in that base / format', loc=f['loc'], fn=f['id'])
+
+    # ---------------------------------------------------------------- values compared whole
+    R2c = ck.rule('C17.whole-value-compared', 'a comparison in the printer that decides what is printed compares whole objects: an operator== / != '
+                  'inherited from a base class is not applied to objects of a derived class that adds data members (the comparison would '
+                  'silently ignore them: a location known by its file only would count as no location)', floor=150)
+    for f in sorted(pf.values(), key=lambda f: f['id']):
+        bad = []
+        for n in walk(f.get('body')):
+            if n.get('k') != 'call':
+                continue
+            c = n.get('callee') or {}
+            if c.get('name') not in ('operator==', 'operator!=', 'operator<=>') or not c.get('parent') or c['parent'] not in F.rec:
+                continue
+            for opnd in [n.get('obj')] + list(n.get('args', [])):
+                x = opnd
+                while isinstance(x, dict) and x.get('k') == 'cast' and x.get('ck') in ('NoOp', 'LValueToRValue'):
+                    x = x.get('e')
+                if isinstance(x, dict) and x.get('k') == 'cast' and x.get('ck') in ('DerivedToBase', 'UncheckedDerivedToBase'):
+                    inner = x.get('e') or {}
+                    while isinstance(inner, dict) and inner.get('k') == 'cast' and inner.get('ck') in ('NoOp', 'LValueToRValue'):
+                        inner = inner.get('e')
+                    dt = (inner.get('t') or '').replace('const ', '').replace('&', '').strip()
+                    if dt in F.rec and dt != c['parent'] and F.rec[dt]['fields']:
+                        bad.append(f'{contracts.short(c["parent"])}::{c["name"]} applied to a {contracts.short(dt)} (line {n.get("ln")}): its member(s) '
+                                   f'{[fl["name"] for fl in F.rec[dt]["fields"]]} are ignored')
+        ck.check(R2c, f['id'], not bad, f'{f["id"]}: ' + '; '.join(sorted(set(bad))), loc=f['loc'], fn=f['id'])
+
     # ---------------------------------------------------------------- sequences in insertion order
     R4 = ck.rule('C17.insertion-order', 'sequence implementations append at the end and index from the beginning', floor=4)
     for tmpl, grow in (('ipr::impl::obj_list', 'emplace_after'), ('ipr::impl::obj_sequence', 'emplace_back'), ('ipr::impl::ref_sequence', None)):
